@@ -5,6 +5,7 @@ package sftp
 // C16 — A directory listing returns every entry exactly once.
 
 import (
+	"context"
 	"fmt"
 	"io"
 	"os"
@@ -104,10 +105,28 @@ func (l *c16Lister) ListAt(out []os.FileInfo, off int64) (int, error) {
 	return n, nil
 }
 
-type c16Handlers struct{ l *c16Lister }
+type c16Handlers struct {
+	l    *c16Lister
+	bind bool // the lister works only while the context of the request that created it is live (a cursor, a remote listing)
+}
+
+type c16Bound struct {
+	l   *c16Lister
+	ctx context.Context
+}
+
+func (b c16Bound) ListAt(out []os.FileInfo, off int64) (int, error) {
+	if err := b.ctx.Err(); err != nil {
+		return 0, err
+	}
+	return b.l.ListAt(out, off)
+}
 
 func (h c16Handlers) Filelist(r *Request) (ListerAt, error) {
 	if r.Method == "List" {
+		if h.bind {
+			return c16Bound{h.l, r.Context()}, nil
+		}
 		return h.l, nil
 	}
 	return nil, os.ErrNotExist
@@ -454,7 +473,7 @@ func c16RS(u *vfUnit, part, parts int) {
 						l.ents = append(l.ents[:3], append([]os.FileInfo{c16Info{".", 0, os.ModeDir | 0o755, 3}}, l.ents[3:]...)...)
 					}
 					alloc := caseNo%2 == 0
-					sess, err := vfConnect(vfSrvCfg{Kind: vfRS, Alloc: alloc, H: Handlers{FileList: c16Handlers{l}}}, vfPipeOpts{})
+					sess, err := vfConnect(vfSrvCfg{Kind: vfRS, Alloc: alloc, H: Handlers{FileList: c16Handlers{l, caseNo%3 == 1}}}, vfPipeOpts{})
 					if err != nil {
 						u.Inconclusive("connect: %v", err)
 						return
